@@ -145,6 +145,11 @@ fn judge_stationary<T: Sc>(idx: usize, l: &StLine, rep: &mut Report) {
     // weight-scaled twins (VPStats!WeightScaleLaw): w * 2^-k; chi2 scales, Cov / band / correlation do not
     let wk = if T::NAME == "f64" { 14 } else { 5 };
     judge_stationary_scaled::<T>(idx, l, 0, wk, 0, None, rep);
+    // weight-sign twins: every non-zero weight replaced by -|w| (all weights <= 0, zeros stay): W enters
+    // H^T H and |r_w|^2 squared, so chi2, Cov, correlation and band radius do not change at all
+    if !l.w.is_empty() {
+        judge_stationary_scaled::<T>(idx, l, 0, -1, 0, None, rep);
+    }
     // coefficient-scaled twins (VPStats!CoeffScaleLaw): c * 2^k; the nonlinear columns of H grow by 2^k,
     // H^T H is badly scaled (not ill conditioned): Cov_ij shrinks by S_i S_j, everything else stays
     let ck = if T::NAME == "f64" { 30 } else { 12 };
@@ -159,6 +164,8 @@ fn judge_stationary<T: Sc>(idx: usize, l: &StLine, rep: &mut Report) {
 
 fn judge_stationary_scaled<T: Sc>(idx: usize, l: &StLine, kexp: i32, wexp: i32, cexp: i32, repl: Option<&ReplJ>, rep: &mut Report) {
     let t = (2.0f64).powi(-kexp);
+    let wsign = wexp == -1;
+    let wexp = if wsign { 0 } else { wexp };
     let tw = (2.0f64).powi(-wexp);
     let tc = (2.0f64).powi(cexp);
     let n0 = l.x.len();
@@ -175,14 +182,16 @@ fn judge_stationary_scaled<T: Sc>(idx: usize, l: &StLine, kexp: i32, wexp: i32, 
     if (0..n).any(|i| y[(i, 0)].to64() != yv(i)) {
         return; // not exact in this scalar type
     }
-    let w: Option<Vec<T>> = if wexp != 0 {
+    let w: Option<Vec<T>> = if wsign {
+        Some((0..n).map(|i| T::of64(-(l.w[i % n0] as f64).abs())).collect())
+    } else if wexp != 0 {
         Some((0..n).map(|i| T::of64(tw * if l.w.is_empty() { 1.0 } else { l.w[i % n0] as f64 })).collect())
     } else if l.w.is_empty() {
         None
     } else {
         Some((0..n).map(|i| T::of64(l.w[i % n0] as f64)).collect())
     };
-    let plain = kexp == 0 && wexp == 0 && cexp == 0 && kk == 1;
+    let plain = kexp == 0 && wexp == 0 && cexp == 0 && kk == 1 && !wsign;
     let tol = if plain { T::tol() } else { T::tol() * 100.0 };
     // S = diag(1, .., 1, tc, .., tc): scaling of the columns of H under the coefficient scaling
     let sc_of = |i: usize| if i < m { 1.0 } else { tc };
@@ -211,7 +220,7 @@ fn judge_stationary_scaled<T: Sc>(idx: usize, l: &StLine, kexp: i32, wexp: i32, 
     let rr = rr0 * tw * tw * kk as f64;
     for (ki, &kind) in kinds.iter().enumerate() {
         let par = (idx + ki) % 2 == 1;
-        let flav = format!("line={} fam={}({},{},{}) {} {:?} par={} rscale=2^-{} wscale=2^-{} cscale=2^{} rows x{} nu={}", idx, l.fam.name, m, p, l.fam.seed, T::NAME, kind, par, kexp, wexp, cexp, kk, nu);
+        let flav = format!("line={} fam={}({},{},{}) {} {:?} par={} rscale=2^-{} wscale=2^-{} cscale=2^{} rows x{} nu={}{}", idx, l.fam.name, m, p, l.fam.seed, T::NAME, kind, par, kexp, wexp, cexp, kk, nu, if wsign { " weights -|w|" } else { "" });
         let det = |what: &str, dv: f64| json!({"flavour": flav, "what": what, "dev": dv, "a": l.a, "c": l.c, "r0": l.r0, "w": l.w});
         if !plain && !(kexp != 0 || wexp != 0) && ki >= 2 && idx % 2 == 1 {
             continue; // the polynomial flavours of the new twins on every other instance only
@@ -264,8 +273,8 @@ fn judge_stationary_scaled<T: Sc>(idx: usize, l: &StLine, kexp: i32, wexp: i32, 
         let mut worst = 0.0f64;
         if st.wres.len() == n {
             for i in 0..n {
-                let e = l.rw[i % n0] as f64 * t * tw;
-                worst = worst.max((st.wres[i].to64() - e).abs() / e.abs().max(t * tw));
+                let e = l.rw[i % n0] as f64 * t * tw * if wsign && l.w[i % n0] > 0 { -1.0 } else { 1.0 };
+                worst = nmax(worst, (st.wres[i].to64() - e).abs() / e.abs().max(t * tw));
             }
         } else {
             worst = f64::INFINITY;
@@ -291,8 +300,8 @@ fn judge_stationary_scaled<T: Sc>(idx: usize, l: &StLine, kexp: i32, wexp: i32, 
                     // compared after undoing the column scaling: S Cov' S = Cov
                     let e = rr0 * l.adj[i][j] as f64 / (nu * deth);
                     let un = sc_of(i) * sc_of(j);
-                    worst = worst.max((st.cov[(i, j)].to64() * un - e).abs() / scale);
-                    asym = asym.max((st.cov[(i, j)].to64() - st.cov[(j, i)].to64()).abs() * un / scale);
+                    worst = nmax(worst, (st.cov[(i, j)].to64() * un - e).abs() / scale);
+                    asym = nmax(asym, (st.cov[(i, j)].to64() - st.cov[(j, i)].to64()).abs() * un / scale);
                 }
             }
             rep.check("C13", worst <= tol, worst, || det("covariance differs from sigma^2 (H^T H)^-1 in (c, alpha) order", worst));
@@ -312,7 +321,7 @@ fn judge_stationary_scaled<T: Sc>(idx: usize, l: &StLine, kexp: i32, wexp: i32, 
                         let aij = l.adj[i][j] as f64;
                         let e = aij.signum() * (aij * aij / (l.adj[i][i] as f64 * l.adj[j][j] as f64)).sqrt();
                         let g = st.corr[(i, j)].to64();
-                        worst = worst.max((g - e).abs());
+                        worst = nmax(worst, (g - e).abs());
                         if !(g.abs() <= 1.0 + 10.0 * tol) {
                             range_ok = false;
                         }
@@ -343,7 +352,7 @@ fn judge_stationary_scaled<T: Sc>(idx: usize, l: &StLine, kexp: i32, wexp: i32, 
                         ok = false;
                     }
                     let scale = t * (rr0 / (nu * deth)).sqrt() * (l.quad.iter().cloned().max().unwrap_or(1) as f64).sqrt();
-                    worst = worst.max((g - e).abs() / scale.max(1e-300));
+                    worst = nmax(worst, (g - e).abs() / scale.max(1e-300));
                 }
                 if let Some(pr) = &prev {
                     for i in 0..n {
@@ -583,7 +592,7 @@ fn stats_certificate_probe(rep: &mut Report) {
         for a in 0..k {
             for b in 0..k {
                 let e = if a == b { st.chi2 } else { 0.0 };
-                worst = worst.max((prod[(a, b)] - e).abs() / st.chi2.abs().max(1e-300));
+                worst = nmax(worst, (prod[(a, b)] - e).abs() / st.chi2.abs().max(1e-300));
             }
         }
         rep.check("C13", worst <= 1e-6, worst, || det("Cov (H^T H) != sigma^2 I with H rebuilt from the returned parameters and coefficients (order: coefficients, then alpha)", worst));
@@ -593,7 +602,7 @@ fn stats_certificate_probe(rep: &mut Report) {
         for a in 0..k {
             for b in 0..k {
                 let e = st.cov[(a, b)] / (st.cov[(a, a)] * st.cov[(b, b)]).sqrt();
-                wc = wc.max((st.corr[(a, b)] - e).abs());
+                wc = nmax(wc, (st.corr[(a, b)] - e).abs());
             }
         }
         rep.check("C13", wc <= 1e-9, wc, || det("correlation differs from cov_ij / sqrt(cov_ii cov_jj)", wc));
@@ -609,7 +618,7 @@ fn stats_certificate_probe(rep: &mut Report) {
                 }
                 let e = tq50[pi] * q.max(0.0).sqrt();
                 scale = scale.max(e);
-                wb = wb.max((band[i] - e).abs());
+                wb = nmax(wb, (band[i] - e).abs());
             }
             let dv = wb / scale.max(1e-300);
             rep.check("C14", band.len() == n && dv <= 2e-4, dv, || det(&format!("band radius at p={pv} differs from t(50) sqrt(h_i^T Cov h_i) (unweighted rows)"), dv));
